@@ -204,6 +204,19 @@ func progHash(t *plush.Template) uint64 {
 	return treeHash(p)
 }
 
+// c13Boom prints by panicking: a render that emits it dies half-way (in code of the data, after output was produced).
+type c13Boom struct{}
+
+func (c13Boom) String() string { panic("verif: a String method that panics") }
+
+// c13Disturb performs such a render and recovers: nothing of it may be seen by any later render.
+func c13Disturb() {
+	defer func() { recover() }()
+	ctx := plush.NewContext()
+	ctx.Set("boom", c13Boom{})
+	plush.Render("leftover of an abandoned render<%= boom %>", ctx)
+}
+
 // c13Soak: one program, 8 executions over every way of obtaining the template.
 func c13Soak(c *Ctx, item *corpusItem) {
 	if item.Perm {
@@ -272,6 +285,7 @@ func c13Soak(c *Ctx, item *corpusItem) {
 		c.Fail("depends-on-earlier-renders:"+item.Label, fmt.Sprintf("%s rendered %q (error %q); rendered first in a process it gives %q", src, ref.Out, ref.Err, item.Want), cas)
 	}
 	for i := 0; i < 2; i++ {
+		c13Disturb()
 		r, o := c13Exec(item, func(ctx *plush.Context) (string, error) { return t1.Exec(ctx) })
 		check("repeated-exec", r, o)
 	}
